@@ -990,6 +990,6 @@ DRIVER_ARGS = {
     "C02": {"enumerate_failures": True},
     "C04": {"scenario_filter": lambda name, scenario: len(scenario.nets.split()) >= 2},
     "C05": {"scenario_filter": lambda name, scenario: any(k in name for k in ("gui", "get", "finale")),
-            "quick_cases": 640},
+            "quick_cases": 1280},
     "C08": {"scenario_filter": lambda name, scenario: len(scenario.nets.split()) >= 2},
 }
